@@ -66,4 +66,9 @@ MUTANTS = [
             self._mk_palette(palette, no_color, colors_conf))""", """        cp = self._mk_palette(palette, no_color, colors_conf)
         return CHTextResult(self, cp)""")]},
     {"id": "c10-n-chtext-ctor", "expect": "silent", "edits": [(P, "            yield CHText.make(self._make_table_line(title_line_data, sep))", "            yield CHText(*self._make_table_line(title_line_data, sep))")]},
+    # R10l: per-palette cache entries taken from a persistent template
+    {"id": "c10-enum-cache-shallow-template", "expect": "fire", "edits": [(P, "            by_fmt_cache = self._cache[cache_key] = {\n                fmt_modifier: {}\n                for fmt_modifier in self._FMT_MODIFIERS\n            }\n            # None and 'full' format modifiers will refer to the same cached vals\n            by_fmt_cache[None] = by_fmt_cache['full']\n            self._cache[cache_key] = by_fmt_cache\n", "            by_fmt_cache = self._cache[cache_key] = dict(self._tpl)\n"),
+        (P, "        # {syntax_names_id: {fmt_modifier: {enum_val: (text, align)}}}\n        self._cache = {}\n", "        self._cache = {}\n        self._tpl = {m: {} for m in self._FMT_MODIFIERS}\n        self._tpl[None] = self._tpl['full']\n")]},
+    {"id": "c10-n-enum-cache-template-rebuilt", "expect": "silent", "edits": [(P, "            by_fmt_cache = self._cache[cache_key] = {\n                fmt_modifier: {}\n                for fmt_modifier in self._FMT_MODIFIERS\n            }\n            # None and 'full' format modifiers will refer to the same cached vals\n            by_fmt_cache[None] = by_fmt_cache['full']\n            self._cache[cache_key] = by_fmt_cache\n", "            by_fmt_cache = self._cache[cache_key] = {m: dict(v) for m, v in self._tpl.items()}\n            by_fmt_cache[None] = by_fmt_cache['full']\n"),
+        (P, "        # {syntax_names_id: {fmt_modifier: {enum_val: (text, align)}}}\n        self._cache = {}\n", "        self._cache = {}\n        self._tpl = {m: {} for m in self._FMT_MODIFIERS}\n")]},
 ]
